@@ -69,3 +69,11 @@ func TestReplayC07TemplateLocalCaptureDeep(t *testing.T) {
 		}
 	}
 }
+
+// uniqueValues over a path with two alternatives: the array aggregator emits "} {" inside an array comprehension
+func TestKnownFindingC07UniqueValuesOverAlternatives(t *testing.T) {
+	p := "#%Validation Profile 1.0\nprofile: U\nprefixes:\n  ex: http://example.org/\nviolation:\n  - v1\nvalidations:\n  v1:\n    targetClass: ex.T\n    message: m\n    propertyConstraints:\n      ex.a | ex.b:\n        uniqueValues: true\n"
+	if _, err := ProcessProfile(p, false, nil); err != nil {
+		t.Errorf("C07 violated: uniqueValues on the path ex.a | ex.b does not compile: %v", strings.Split(err.Error(), "\n")[0])
+	}
+}
